@@ -45,10 +45,10 @@ def c13(pid, tier, seed):
     big = {2 ** 24 - 1, 2 ** 24}
     if q:
         consts = dict(Ns={0, 1, 2, 3, 5, 7, 10, 13, 20, 24}, Cs={1, 2}, Ks={2, 3, 4, 7, 10}, Lens={0, 1, 2, 3, 5, 7, 10, 16, 24, 33, 40}, BigLens=big, Unknown=True,
-                      Wide=True, TWs={1, 2, 3, 4, 7, 12, 30}, WKs={2, 3, 10}, WLens={0, 1, 3, 7, 40})
+                      Wide=True, TWs={1, 2, 3, 4, 7, 12, 30}, WKs={2, 3, 10}, WLens={0, 1, 3, 7, 40}, Orders={"tc", "ct"})
     else:
         consts = dict(Ns=set(range(0, 25)), Cs={1, 2}, Ks=set(range(2, 11)), Lens=set(range(0, 41)), BigLens=big, Unknown=True,
-                      Wide=True, TWs=set(range(1, 31)), WKs={2, 3, 5, 10}, WLens={0, 1, 2, 3, 7, 16, 40})
+                      Wide=True, TWs=set(range(1, 31)), WKs={2, 3, 5, 10}, WLens={0, 1, 2, 3, 7, 16, 40}, Orders={"tc", "ct"})
     gens = [("geom", "MC_BarGeometry", consts, "bfs")]
     return props.generic_check(pid, tier, seed, gens, "bargeom", "Trace_BarGeometry",
                                "for every configuration (bar width N / terminal width for wide_bar, cluster width c, 2..10 progress clusters, length incl. unknown, 0, 2^24-1, 2^24) "
@@ -69,10 +69,16 @@ def c11(pid, tier, seed):
     q = tier == "quick"
     lens = {"none", "0", "1", "3", "MAX"}
     poss = {"0", "1", "5", "MAX"}
-    gens = [("states", "MC_Placeholders", dict(D=1 if q else 2, NT=3, Lens=lens, Poss=poss), "bfs"),
-            ("ticks2", "MC_Placeholders", dict(D=1, NT=2, Lens={"none", "3"}, Poss={"0", "5"}), "bfs"),
-            ("ticks4", "MC_Placeholders", dict(D=1 if q else 2, NT=4, Lens={"none", "3"}, Poss={"1"}), "bfs"),
-            ("deep", "MC_Placeholders", dict(D=6, NT=3, Lens=lens, Poss=poss), ("sim", 300 if q else 4000, 9))]
+    vis = {False}
+    gens = [("states", "MC_Placeholders", dict(D=1 if q else 2, NT=3, Lens=lens, Poss=poss, Hid=vis), "bfs"),
+            ("ticks2", "MC_Placeholders", dict(D=1, NT=2, Lens={"none", "3"}, Poss={"0", "5"}, Hid=vis), "bfs"),
+            ("ticks4", "MC_Placeholders", dict(D=1 if q else 2, NT=4, Lens={"none", "3"}, Poss={"1"}, Hid=vis), "bfs"),
+            # fractions whose percentage is an exact half (12.5, 62.5, 0.5, 2.5): the documented rendering is {:.0} of the f32 value
+            ("half_percent", "MC_Placeholders", dict(D=1, NT=3, Lens={"8", "200"}, Poss={"1", "5"}, Hid=vis), "bfs"),
+            # the bar lives behind a hidden target and gets the terminal only before the renders: the state, the ticks and the
+            # resets its custom keys saw must be the same
+            ("hidden_first", "MC_Placeholders", dict(D=2 if q else 3, NT=3, Lens={"none", "3"}, Poss={"1"}, Hid={True}), "bfs"),
+            ("deep", "MC_Placeholders", dict(D=6, NT=3, Lens=lens, Poss=poss, Hid={False, True}), ("sim", 300 if q else 4000, 9))]
     return props.generic_check(pid, tier, seed, gens, "place", "Trace_Placeholders",
                                "a bar created with length in {unknown, 0, 1, 3, MAX} and position in {0, 1, 5, MAX} is driven by D operations (tick, n-1 / n ticks, inc, set_position, set_length, "
                                "unset_length, set_message, set_prefix, finish, finish_with_message, abandon, reset, clock advances of 1 ms .. 3 days) under the frozen virtual clock; then each of 27 "
